@@ -199,7 +199,7 @@ def build_fail(st, r):
     fresh = [n for n in ["f1", "f2", "f3", "f4"] if n not in names and n not in m.undefined_mentions()]
     fa = fresh[0] if fresh else "zz1"
     fb = fresh[1] if len(fresh) > 1 else "zz2"
-    k = gen.choice(r, [0, 1, 1, 1, 2, 3, 4, 5, 6, 7, 8, 9, 10, 10, 11, 12])
+    k = gen.choice(r, [0, 1, 1, 1, 2, 3, 4, 5, 6, 7, 8, 9, 10, 10, 11, 12, 13, 13])
     real_named = [x for x in m.recs if M.name_of(x) is not None and not (version == "gfa1" and x.rt in "LC")]
     if k == 0 and real_named:
         nm = M.name_of(gen.choice(r, real_named))
@@ -286,6 +286,24 @@ def build_fail(st, r):
         i = gen.choice(r, cands)
         n_, t_, _v = [t for t in m.recs[i].tags if t[1] in "ifHB" and t[0] in gen.TAG_NAMES][0]
         return ["fail", "set", i, n_, {"i": "12x", "f": "1.2.3", "H": "XYZ", "B": "c,999"}[t_], "set", "invalid_value_vlevel3"]
+    if k == 13:
+        # a line that uses the identifier of a line of another type where a segment stands
+        other = [M.name_of(x) for x in real_named if x.rt != "S"]
+        segs = m.segment_names()
+        if not other or not segs:
+            return None
+        nm, a = gen.choice(r, other), gen.choice(r, segs)
+        if version == "gfa1":
+            if "," in nm:
+                return None
+            text = gen.choice(r, ["L\t%s\t+\t%s\t-\t*" % (a, nm), "L\t%s\t-\t%s\t+\t3M" % (nm, a), "C\t%s\t+\t%s\t+\t0\t*" % (a, nm),
+                                  "P\t%s\t%s+,%s+\t*" % (fa, a, nm), "P\t%s\t%s-,%s+,%s+\t*" % (fa, a, a, nm)])
+        else:
+            text = gen.choice(r, ["E\t*\t%s+\t%s-\t0\t1\t0\t1\t*" % (a, nm), "E\t%s\t%s-\t%s+\t0\t1\t0\t1\t*" % (fa, nm, a),
+                                  "G\t*\t%s+\t%s+\t5\t*" % (a, nm), "F\t%s\tread1+\t0\t1\t0\t1\t*" % nm])
+        if gen.chance(r, 0.4):
+            return ["fail", "add_instance", text, version, "segment_is_other_type_instance"]
+        return ["fail", "add", text, "segment_is_other_type"]
     if k == 12:
         cands = [i for i, x in enumerate(m.recs) if x.rt not in ("#", "H")]
         if not cands:
